@@ -248,7 +248,8 @@ FI_ROW(u8, u8, 1) FI_ROW(u8, u8, 3) FI_ROW(u8, u8, 9) FI_ROW(u16, u16, 1) FI_ROW
 //@harness h_fi_{U}_{N}_{V} for U in u8,u16,u32 for N in 1,3,9 for V in u8,u16,u32,u64 tier=quick
 FI_ROW(u8, u8, 2) FI_ROW(u8, u8, 17) FI_ROW(u8, u8, 200) FI_ROW(u8, u8, 255) FI_ROW(u16, u16, 256) FI_ROW(u16, u16, 1000) FI_ROW(u16, u16, 65535) FI_ROW(u32, u32, 65536) FI_ROW(u32, u32, 4294967295)
 //@harness h_fi_u8_{N}_{V} for N in 2,17,200,255 for V in u8,u16,u32,u64 tier=thorough
-//@harness h_fi_u16_{N}_{V} for N in 256,1000,65535 for V in u8,u16,u32,u64 tier=thorough
+//@harness h_fi_u16_{N}_{V} for N in 256,1000 for V in u8,u16,u32,u64 tier=quick
+//@harness h_fi_u16_65535_{V} for V in u8,u16,u32,u64 tier=thorough
 //@harness h_fi_u32_{N}_{V} for N in 65536,4294967295 for V in u8,u16,u32,u64 tier=thorough
 
 H(h_ceil_div_u32, ceil_div<u32>()) H(h_ceil_div_u64, ceil_div<u64>())
